@@ -655,7 +655,11 @@ func (t *sseClientTransport) sendRequestInternal(ctx context.Context, req *JSONR
 	// Check response status.
 	if resp.StatusCode < 200 || resp.StatusCode >= 300 {
 		bodyBytes, _ := io.ReadAll(resp.Body)
-		return nil, fmt.Errorf("%w: status code %d, body: %s", ErrHTTPRequestFailed, resp.StatusCode, string(bodyBytes))
+		// Classified for retry by the status code alone, whatever the body says.
+		return nil, &retry.StatusError{
+			Code: resp.StatusCode,
+			Err:  fmt.Errorf("%w: status code %d, body: %s", ErrHTTPRequestFailed, resp.StatusCode, string(bodyBytes)),
+		}
 	}
 
 	// In the SSE transport, the response should come via the SSE stream.
